@@ -163,12 +163,27 @@ func (a *tsAnalysis) isTimerLoad(v ssa.Value) bool {
 
 // isTimerChan: v is (derived from) the C field of the timer.
 func (a *tsAnalysis) isTimerChan(v ssa.Value) bool {
+	return a.isTimerChanD(v, 0)
+}
+
+func (a *tsAnalysis) isTimerChanD(v ssa.Value, depth int) bool {
 	return core.DerivesFrom(v, func(w ssa.Value) bool {
-		fa := core.LoadedField(w)
-		if fa == nil || core.FieldName(fa) != "C" {
-			return false
+		if fa := core.LoadedField(w); fa != nil && core.FieldName(fa) == "C" {
+			return a.isTimerLoad(fa.X)
 		}
-		return a.isTimerLoad(fa.X)
+		// the channel returned by a package helper (`timerCh := b.startTimer()`)
+		if cl, ok := w.(*ssa.Call); ok && depth < 2 {
+			if h := cl.Call.StaticCallee(); h != nil && h.Pkg == a.pkg && len(h.Blocks) > 0 {
+				for _, r := range core.Returns(h) {
+					for _, res := range r.Results {
+						if _, isCh := res.Type().Underlying().(*types.Chan); isCh && a.isTimerChanD(res, depth+1) {
+							return true
+						}
+					}
+				}
+			}
+		}
+		return false
 	})
 }
 
